@@ -117,7 +117,7 @@ Print Assumptions C18_outer_spaces_same_tree.
    or both fail.  And these spellings mean the same: .name / ['name'] / ["name"]; .* / [*]; an index, or the bounds of a
    slice, written with a plus sign or leading zeros (only the number counts: C18_plus_sign_partial, C18_leading_zero_partial
    give atoi); a filter whose inner steps are respelled; a comparison whose literal is another spelling of the same number; a comparison
-   with blanks around its operator; the same after `..`. *)
+   with blanks around its operator and inside the parentheses; the same after `..`. *)
 From JP Require Import FiltParse CmpParse QueryParse FiltChain FiltAddr CmpAddr FiltChainAddr SpellText.
 Theorem C18_equivalent_spellings_from_text : forall cfg parse_float regex_ok ffun afun regex_match,
   (forall f v w, small v -> ffun f v = Some w -> small w) ->
@@ -148,8 +148,9 @@ Theorem C18_spellings_that_mean_the_same : forall parse_float regex_match,
   (forall i j, Forall2 same_rstep i j -> same_step parse_float regex_match (FE i) (FE j) /\ same_step parse_float regex_match (FN i) (FN j)) /\
   (forall i j o lit lit', Forall2 same_rstep i j -> lit_num parse_float lit = lit_num parse_float lit' ->
      same_step parse_float regex_match (FC i o lit) (FC j o lit')) /\
-  (forall i a o b lit, same_step parse_float regex_match (FC i o lit) (FCS i a o b lit)) /\
-  (forall x y, same_step parse_float regex_match x y -> same_step parse_float regex_match (FR x) (FR y)).
+  (forall i g0 a o b g1 lit, same_step parse_float regex_match (FC i o lit) (FCS i g0 a o b g1 lit)) /\
+  (forall x y, same_step parse_float regex_match x y -> same_step parse_float regex_match (FR x) (FR y)) /\
+  (forall i g0 gn g1, same_step parse_float regex_match (FE i) (FES false g0 gn i g1) /\ same_step parse_float regex_match (FN i) (FES true g0 gn i g1)).
 Proof.
   intros pf rm.
   split; [intros q k; split; [apply same_plain|apply same_rec]; intros lv; apply name_spellings|].
@@ -160,8 +161,9 @@ Proof.
   split; [intros a b H; apply same_fs; exact H|].
   split; [intros i j H; split; [apply filter_spellings|apply negation_spellings]; exact H|].
   split; [intros i j o lit lit' H E; apply comparison_spellings; assumption|].
-  split; [intros i a o b lit; apply spaced_comparison_spellings|].
-  intros x y H. apply rec_filter_spellings. exact H.
+  split; [intros i g0 a o b g1 lit; apply spaced_comparison_spellings|].
+  split; [intros x y H; apply rec_filter_spellings; exact H|].
+  intros i g0 gn g1. apply spaced_filter_spellings.
 Qed.
 Print Assumptions C18_spellings_that_mean_the_same.
 
